@@ -350,9 +350,14 @@ func (g *Gen) HistoryIO() []E {
 	evs = append(evs, E{"op": "Insert", "c": other, "docs": []interface{}{g.jsonDoc(AStr(g.ids[0]))}})
 	evs = append(evs, E{"op": "Export", "c": src, "path": "exp.json", "audit": true})
 	names := []string{g.colls[2], g.colls[3]}
-	steps := g.r.Perm(11)
+	steps := append(g.r.Perm(11), 11)
 	for _, s := range steps {
 		switch s {
+		case 11: // last: the source is dropped and comes back from its own export, under its own name
+			if g.chance(0.6) {
+				evs = append(evs, E{"op": "DropCollection", "c": src}, E{"op": "Import", "c": src, "path": "exp.json"},
+					E{"op": "FindAll", "c": src, "q": []interface{}{[]interface{}{"sort", []interface{}{}}}}, E{"op": "Count", "c": src, "q": []interface{}{}})
+			}
 		case 8: // a new collection from a query (criteria, sometimes a sorted window)
 			g.setFocus(src)
 			evs = append(evs, E{"op": "CreateByQuery", "name": "byq", "c": src, "q": g.query(true), "audit": true})
